@@ -19,7 +19,17 @@ Definition tag_universe := 6.                      (* tags are numbers below thi
 Definition store := list (list tag).               (* cell -> the set it holds, as a sorted list *)
 
 Inductive tagref := TNone | TFrozen (v : list tag) | TLoc (l : nat).
-Inductive tsv := TsNone | TsGiven (k : nat) | TsFilled.    (* timestamp: absent, supplied, filled in by a decorator *)
+(* what a caller can supply as timestamp=.  No decorator looks inside it: a timezone-aware datetime
+   (zone 0 = UTC, other numbers = other fixed offsets), a NAIVE datetime (tzinfo None), or something
+   that is not a datetime at all (a placeholder such as 'F', 0, '' - falsy ones included).  The
+   numbers index the harness's tables. *)
+Inductive tsobj := TAware (zone day : nat) | TNaive (day : nat) | TOther (k : nat).
+Inductive tsv := TsNone | TsGiven (t : tsobj) | TsFilled.    (* timestamp: absent (left out or None), supplied, filled in by a decorator *)
+
+(* Route codes (Model/Router.v): None or the '/'-separated segments of the string.  Here a segment
+   may also be the EMPTY string (the harness has a number for it): '' is Some [empty], '/' is
+   Some [empty; empty], 'ab/' is Some [ab; empty].  A string never splits into no segments at all,
+   so Some [] denotes nothing (excluded by Spec.C11.wf). *)
 
 (* the arguments of StreamResult.status; T is the representation of test_tags *)
 Record event (T : Type) := Evt {
